@@ -166,6 +166,9 @@ func (c *pkGen) genRecv(s *pkSnap) string {
 	case x < 7:
 		to = "bad"
 		c.r.Hit("recv/undecodable-receiver")
+	case x < 14 && strings.HasPrefix(to, "a"):
+		to = "A" + to[1:] // the receiver's bech32 address spelled in upper case
+		c.r.Hit("recv/upper-case-receiver")
 	}
 	memo := "-"
 	switch x := c.g.Intn(100); {
@@ -190,7 +193,34 @@ func (c *pkGen) genRecv(s *pkSnap) string {
 		memo = "e:-1"
 		c.r.Hit("recv/negative-eibc-fee")
 	}
-	return fmt.Sprintf("recv c%d seq=%d ph=%d den=%s amt=%d to=%s memo=%s", ci, seq, c.proofHeight(s, ri), den, amt, to, memo)
+	ph := c.proofHeight(s, ri)
+	// packet-forward middleware: the received funds are sent on over another hub channel (mostly from the
+	// plain chain towards a rollapp; from a rollapp only a finalized height gets through delayedack)
+	if fw := map[string]int{"C04": 7, "C05": 9}[c.focus] + 5; c.g.Chance(fw) {
+		if c.g.Chance(65) {
+			ci, ri = 2, -1
+			seq = c.nextRcv[ci]
+			c.nextRcv[ci]++
+			ph = c.proofHeight(s, ri)
+		} else if ri >= 0 && s.FinH[ri] >= 0 && c.g.Chance(70) {
+			ph = uint64(s.FinH[ri])
+			c.r.Hit("recv/forward-from-rollapp-at-finalized-height")
+		}
+		k := []int{0, 0, 0, 1, 1, 2, 3, 9}[c.g.Intn(8)]
+		if k == ci {
+			c.r.Hit("recv/forward-back-over-the-same-channel")
+		}
+		if strings.HasPrefix(den, "b") && den != "b"+strconv.Itoa(1+ci) && den != "b"+strconv.Itoa(1+k) {
+			// a hub-side token coming back and forwarded in escrow: if that forward is refunded, packet-forward
+			// v8.1.0 lowers ibc-go's total-escrow counter although the coins only move to the inbound channel's
+			// escrow; a later unescrow then panics (known finding C04/escrow/..., directed trace
+			// corpus/C04/pfm-refund-lowers-total-escrow.ops).  The model has no such counter: not generated.
+			den = "f"
+		}
+		memo = "fw:c" + strconv.Itoa(k)
+		c.r.Hit("recv/forward-memo")
+	}
+	return fmt.Sprintf("recv c%d seq=%d ph=%d den=%s amt=%d to=%s memo=%s", ci, seq, ph, den, amt, to, memo)
 }
 
 func (c *pkGen) genSend(s *pkSnap) string {
@@ -203,6 +233,10 @@ func (c *pkGen) genSend(s *pkSnap) string {
 	amt := c.amount()
 	if c.g.Chance(4) {
 		amt = 0
+	}
+	if c.g.Chance(7) {
+		c.r.Hit("send/receiver-is-a-blocked-hub-address")
+		return fmt.Sprintf("sendblk %s c%d den=%s amt=%d", a, ci, den, amt)
 	}
 	return fmt.Sprintf("send %s c%d den=%s amt=%d", a, ci, den, amt)
 }
@@ -490,6 +524,14 @@ func (c *pkGen) genGrant(s *pkSnap) string {
 		if c.g.Chance(25) {
 			sv = "1"
 		}
+		// a multi-denom spend limit whose part in an open order's denom is EXACTLY that order's price: fulfilling it
+		// exhausts that denom (sdk.Coins drops the zero entry) while another denom is left; a later order in the
+		// exhausted denom must be refused
+		if o := c.pickOrder(s, true); o != nil && c.h.rname(o.RollappID) == ra && c.g.Chance(35) {
+			ds, minfee, maxp, sv = "*", "0", "-", "0"
+			lim = fmt.Sprintf("d%d*%s+d%d*5000", o.Denom, o.Price, (o.Denom+1)%4)
+			c.r.Hit("grant/multi-denom-limit-exact-in-one-denom")
+		}
 		crits = append(crits, fmt.Sprintf("%s/%s/%s/%s/%s/%s/%s", ra, ds, minfee, maxp, lim, c.rawShare(), sv))
 	}
 	spec := strings.Join(crits, ";")
@@ -587,7 +629,7 @@ func (c *pkGen) genFauth(s *pkSnap) string {
 
 func (c *pkGen) next(s *pkSnap) string {
 	w := map[string]int{"recv": 22, "send": 8, "ack": 6, "timeout": 4, "fin": 10, "finkey": 5, "fulfill": 9, "updfee": 4,
-		"lpcreate": 4, "lpdel": 1, "ondemand": 6, "grant": 3, "fauth": 6, "state": 6, "finstate": 6, "fork": 2, "epoch": 2, "block": 7, "chanclose": 1, "chanopen": 1}
+		"lpcreate": 4, "lpdel": 1, "ondemand": 6, "grant": 3, "fauth": 6, "state": 6, "finstate": 6, "fork": 2, "epoch": 2, "block": 7, "chanclose": 1, "chanopen": 1, "timeoutclose": 1}
 	if c.focus == "C04" {
 		w["fin"], w["finkey"], w["recv"], w["ack"], w["timeout"] = 16, 8, 26, 8, 6
 		w["chanclose"], w["chanopen"] = 3, 3
@@ -599,7 +641,7 @@ func (c *pkGen) next(s *pkSnap) string {
 		w["fulfill"], w["fauth"], w["ondemand"], w["updfee"], w["lpcreate"], w["grant"] = 12, 10, 9, 6, 6, 4
 	}
 	order := []string{"recv", "send", "ack", "timeout", "fin", "finkey", "fulfill", "updfee", "lpcreate", "lpdel", "ondemand", "grant", "fauth",
-		"state", "finstate", "fork", "epoch", "block", "chanclose", "chanopen"}
+		"state", "finstate", "fork", "epoch", "block", "chanclose", "chanopen", "timeoutclose"}
 	tot := 0
 	for _, k := range order {
 		tot += w[k]
@@ -701,6 +743,9 @@ func (c *pkGen) next(s *pkSnap) string {
 			}
 		}
 		return fmt.Sprintf("chanclose c%d", c.chanIdx())
+	case "timeoutclose":
+		l := strings.Fields(c.genAck(s, true))
+		return fmt.Sprintf("timeoutclose %s %s", l[1], l[2])
 	case "chanopen":
 		if len(s.Closed) > 0 && c.g.Chance(85) {
 			return "chanopen " + s.Closed[c.g.Intn(len(s.Closed))]
